@@ -99,6 +99,32 @@ def check(tier, seed):
             else:
                 key = death_key(r) if r.get('death') else r['key']
                 found.setdefault(key, (b, r))
+    # first-use behaviour (lazily initialised statics, once-flags): inside a long-lived worker
+    # only the first run of each process can see it, so a sample of runs gets a process each
+    fresh_n = 4000 if thorough else 640
+    fresh_results = []
+    import concurrent.futures as cf
+    b0 = BUILDS[0][0]
+    first = (BUILDS[0][2] if thorough else BUILDS[0][1])
+
+    def one(i):
+        rs, st = run.run_batch(exes[b0], base, 1, 1, start=first + i)
+        return rs, st
+    tb = time.time()
+    with cf.ThreadPoolExecutor(16) as ex:
+        for rs, st in ex.map(one, range(fresh_n)):
+            fresh_results.extend(rs)
+            for k, v in st.items():
+                stats_all[k] = stats_all.get(k, 0) + v
+    per_build[b0 + ' (one process per run)'] = dict(runs=len(fresh_results), wall_s=round(time.time() - tb, 2))
+    total += len(fresh_results)
+    for r in fresh_results:
+        if r['ok']:
+            if r['nontrivial']:
+                scheds.add(r['case'])
+        else:
+            key = death_key(r) if r.get('death') else r['key']
+            found.setdefault(key, (b0, r))
     for key, (b, r) in sorted(found.items()):
         exe = exes[b]
         res = run.run_once(exe, base + ['--emit-plan', str(r['run'])])
